@@ -348,7 +348,7 @@ def history(seed: int, nsteps: int = 10, sources=None, forced=None, forced_how=N
                     known.add(which)
                 elif op == "set_part":
                     binaries = sorted(n for n in known if n not in XML_PARTS and n != "mimetype" and not is_xml_name(n))
-                    if binaries and rng.random() < 0.5:
+                    if binaries and (rng.random() < 0.5 or want.get("binary")):
                         # replace an EXISTING binary part (set_part of a new path is low-level and not part of C03/C04's alphabet)
                         name = rng.choice(binaries)
                         data = f"binary {seed} {k}".encode()
@@ -363,6 +363,7 @@ def history(seed: int, nsteps: int = 10, sources=None, forced=None, forced_how=N
                         handles.pop("body", None)  # the caller replaced the part: old handles are void
                     doc.set_part(name, data)
                     name = "content.xml" if name == "content" else name
+                    handles["last_set"] = name
                     ev["part"] = name
                     ev["new"] = part_ids(name, data, ids)
                     known.add(name)
@@ -523,7 +524,10 @@ def history(seed: int, nsteps: int = 10, sources=None, forced=None, forced_how=N
                     ev.update(saved=saved, smf=smf, smf_files=smf_files)
                 else:  # read
                     absent = sorted(gone - known)
-                    ev["view"] = doc_view(doc, rng.sample(sorted(known), min(len(known), 3)) + (["content.xml"] if rng.random() < 0.5 else [])
+                    if want.get("last_set") and handles.get("last_set") in known:
+                        ev["view"] = doc_view(doc, [handles["last_set"]], ids)
+                    else:
+                        ev["view"] = doc_view(doc, rng.sample(sorted(known), min(len(known), 3)) + (["content.xml"] if rng.random() < 0.5 else [])
                                           + rng.sample(absent, min(len(absent), 2)), ids, shortcut=rng.random() < 0.5)
                 if "twin" in handles and rng.random() < 0.5 and op not in ("clone", "reopen"):
                     ev["twin_view"] = doc_view(handles["twin"], sorted(set(handles["twin_names"]) | known), ids)
@@ -663,6 +667,13 @@ def lazy_clone_history(seed: int) -> list:
 
 def _gen(args):
     seed, n, sources = args
+    if isinstance(sources, tuple) and sources[0] == "setpart-sweep":
+        # a part that was not read yet replaced straight after opening (folder / path / memory), then saved, cloned, read
+        i = sources[1]
+        files = [str(p) for p in sample_files()]
+        return history(seed, 6, [files[i % len(files)]], forced_how=("folder", "path", "folder", "bytesio")[i // len(files) % 4],
+                       forced=[{"op": "set_part", "binary": True}, {"op": "read", "last_set": True}, {"op": "save", "packaging": ("zip", "folder")[i % 2]}, {"op": "clone"},
+                               {"op": "save_twin"}, {"op": "read"}])
     if isinstance(sources, tuple) and sources[0] == "merge-sweep":
         # the styles of another document merged, one of the pictures they brought deleted, merged again, saved, reopened
         i = sources[1]
@@ -691,6 +702,8 @@ def _gen(args):
 def generate(ntraces: int, seed: int, nsteps: int = 10, procs=None, sources=None) -> list:
     procs = procs or min(16, os.cpu_count() or 4)
     jobs = [(seed * 1_000_033 + i, nsteps, sources) for i in range(ntraces)]
+    if sources == "setpart-sweep":
+        jobs = [(seed * 1_000_033 + i, nsteps, ("setpart-sweep", i)) for i in range(min(24, 2 * len(sample_files())))]
     if sources == "merge-sweep":
         jobs = [(seed * 1_000_033 + i, nsteps, ("merge-sweep", i)) for i in range(16)]
     if sources == "flat-sweep":
